@@ -138,7 +138,9 @@ func (e asEvent) configJSON() []byte {
 		admin["config"] = map[string]any{"persist": false}
 	}
 	n, _ := strconv.Atoi(e.n)
-	probe := map[string]any{"n": n, "tok": e.token()}
+	// (the probe's own "tok" field leaves the id letters out: documents that differ in i/u/v differ
+	// in @id tags and in nothing else)
+	probe := map[string]any{"n": n, "tok": strings.NewReplacer("i", "", "u", "", "v", "").Replace(e.token())}
 	if e.has('x') {
 		probe["fail"] = "provision"
 	}
